@@ -37,7 +37,7 @@ fn c01_spec() -> CheckSpec {
         ],
         real_components: vec!["a2lfile: tokenizer, loader (decoding, BOM), parser, generated parsers/writers, writer, ifdata, a2ml, ItemList", "std Read::read_to_end retry/growth loop"],
         stubbed_components: vec!["file system (in-memory VFS behind cfg(a2lfile_verif))", "OS randomness feeding std RandomState (getrandom interposer)"],
-        expected_probes: vec!["hash-order-cross-check", "api-built-tagged-items-with-equal-uid-and-line", "built-in-a2ml-specification", "position-restricted-siblings-out-of-order", "file-with-more-than-one-a2ml-block", "torn-save-then-load"],
+        expected_probes: vec!["hash-order-cross-check", "api-built-tagged-items-with-equal-uid-and-line", "built-in-a2ml-specification", "position-restricted-siblings-out-of-order", "file-with-more-than-one-a2ml-block", "torn-save-then-load", "saves-over-the-same-file", "edit:sort()", "edit:cleanup()", "edit:ifdata_cleanup()", "edit:sort_new_items()", "declared-version-differs-from-content", "a2ml-block-without-usable-definition"],
         plans: vec![
             ScenarioPlan { scenario: Box::new(c01::C01Cycles { faults: false }), quick_runs: 12_000, thorough_runs: 1_000_000 },
             ScenarioPlan { scenario: Box::new(c01::C01Cycles { faults: true }), quick_runs: 6_000, thorough_runs: 400_000 },
@@ -52,14 +52,14 @@ fn c03_spec() -> CheckSpec {
     CheckSpec {
         property: "C03",
         level: "fault_enumeration",
-        rule: "files that were valid when written (generated from the frozen grammar, with A2ML and IF_DATA, whole file or fragment) and were then damaged by storage faults. Scenario 1 enumerates per document every truncation point (quick: every point for documents <= 700 bytes, else 160 biased points plus every point inside the A2ML text) and every single-token drop / duplication / swap and every numeric token replaced by a value at or beyond an integer-width limit, under configurations entry {load_from_string, load, load_fragment, load_fragment_file} x strict x built-in A2ML spec {none, valid, damaged} (thorough: all configurations for every point). Scenario 4 (supplementary input sampling, not fault simulation): token soups over the lexical alphabet (with unusual version numbers and integer-width limits) with a built-in specification that is valid or malformed. Scenario 5 (supplementary input sampling as well): extreme shapes of small inputs: IF_DATA blocks, A2ML types, chains of named A2ML types, array dimensions and unknown blocks nested 3..150000 deep, named A2ML types referencing their predecessor 2/3/8 times over up to 22 levels, in the file or as built-in specification; a returned model is also written and dropped. Scenario 3: include trees (as in C16) with 1..2 files damaged or removed per load. Scenario 2: seeded 1..3 byte-granular faults (bit flip, zero fill, garbage, lost / duplicated / swapped region, misdirected write) on UTF-8/16/32 encoded files, with read chunking and I/O faults. Oracle: the call returns Ok or Err and its diagnostics can be rendered (Display/Debug); no panic, no arithmetic overflow (overflow checks on), fuel (512 ticks per byte) not exhausted, peak memory held by the call (counting allocator) at most 192 MiB + 4096 bytes per input byte, the process does not die (stack overflow / abort are reported through the check script's abnormal-termination path). evaluations = loads. Non-trivial: the fault changed the bytes. Distinct: (fault operator, lexical region class of the fault position, configuration, outcome class).",
+        rule: "files that were valid when written (generated from the frozen grammar, with A2ML and IF_DATA, whole file or fragment) and were then damaged by storage faults. Scenario 1 enumerates per document every truncation point (quick: every point for documents <= 700 bytes, else 160 biased points plus every point inside the A2ML text) and every single-token drop / duplication / swap and every numeric token replaced by a value at or beyond an integer-width limit, under configurations entry {load_from_string, load, load_fragment, load_fragment_file} x strict x built-in A2ML spec {none, valid, damaged} (thorough: all configurations for every point). Scenario 4 (supplementary input sampling, not fault simulation): token soups over the lexical alphabet (with unusual version numbers and integer-width limits) with a built-in specification that is valid or malformed. Scenario 5 (supplementary input sampling as well): extreme shapes of small inputs: IF_DATA blocks, A2ML types, chains of named A2ML types, array dimensions and unknown blocks nested 3..150000 deep, named A2ML types referencing their predecessor 2/3/8 times over up to 22 levels, in the file or as built-in specification, and include trees in which every file includes the next one 2 or 3 times over up to 31 levels (A2L level or inside A2ML); a returned model is also written and dropped. Scenario 3: include trees (as in C16) with 1..2 files damaged or removed per load. Scenario 2: seeded 1..3 byte-granular faults (bit flip, zero fill, garbage, lost / duplicated / swapped region, misdirected write) on UTF-8/16/32 encoded files, with read chunking and I/O faults. Oracle: the call returns Ok or Err and its diagnostics can be rendered (Display/Debug); no panic, no arithmetic overflow (overflow checks on), fuel (512 ticks per byte) not exhausted, peak memory held by the call (counting allocator) at most 192 MiB + 4096 bytes per input byte, the process does not die (stack overflow / abort are reported through the check script's abnormal-termination path). evaluations = loads. Non-trivial: the fault changed the bytes. Distinct: (fault operator, lexical region class of the fault position, configuration, outcome class).",
         assumptions: vec![
             "damaged inputs are the closure of valid generated documents under the fault operators, not all byte strings; token soups and extreme nesting / reference shapes are sampled by two supplementary scenarios that are plain seeded input generation, not fault simulation",
             "fuel covers loops that pass a tick site (tokenizer, A2ML tokenizer/parser loops, parser token cursor); tick-free loops are not covered",
         ],
         real_components: vec!["a2lfile: tokenizer, loader, parser, generated parsers, ifdata, a2ml (all four load entry points)", "std Read::read_to_end"],
         stubbed_components: vec!["file system (in-memory VFS)", "OS randomness feeding std RandomState", "global allocator: the system allocator wrapped by a per-thread byte counter (memory seam)"],
-        expected_probes: vec!["truncation-inside-a2ml-text", "fault-inside-a2ml-text", "number-replaced-by-extreme-value", "soup-with-unusual-version-numbers", "nesting-depth>=2000", "named-type-fanout>=2^20-nodes"],
+        expected_probes: vec!["truncation-inside-a2ml-text", "fault-inside-a2ml-text", "number-replaced-by-extreme-value", "soup-with-unusual-version-numbers", "nesting-depth>=2000", "named-type-fanout>=2^20-nodes", "include-fanout>=10^6-loads"],
         plans: vec![
             ScenarioPlan { scenario: Box::new(c03::C03Enumerate), quick_runs: 320, thorough_runs: 3_000 },
             ScenarioPlan { scenario: Box::new(c03::C03RandomFaults), quick_runs: 30_000, thorough_runs: 1_500_000 },
